@@ -134,4 +134,25 @@ def judgeStrom := judgeWith isStromtagLimit
 def judgeGas := judgeWith isGastagLimit
 def judge931 := judgeWith hasNoUtcOffset
 
+/-! ## writing an instant with a given offset (the inverse direction: every instant × every offset has its writings) -/
+/-- proleptic Gregorian date of a day number (Hinnant's `civil_from_days`), the inverse of `daysFromCivil` -/
+def civilFromDays (z0 : Int) : Int × Int × Int :=
+  let z := z0 + 719468
+  let era := (if z ≥ 0 then z else z - 146096) / 146097
+  let doe := z - era * 146097
+  let yoe := (doe - doe / 1460 + doe / 36524 - doe / 146096) / 365
+  let y := yoe + era * 400
+  let doy := doe - (365 * yoe + yoe / 4 - yoe / 100)
+  let mp := (5 * doy + 2) / 153
+  let d := doy - (153 * mp + 2) / 5 + 1
+  let m := if mp < 10 then mp + 3 else mp - 9
+  (if m ≤ 2 then y + 1 else y, m, d)
+
+/-- the datetime that denotes UTC second `t` when written with UTC offset `off` (what `datetime.astimezone(timezone(off))` shows) -/
+def writeInstant (t off : Int) : Written :=
+  let loc := t + off
+  let c := civilFromDays (loc / 86400)
+  let sod := loc % 86400
+  ⟨c.1, c.2.1, c.2.2, sod / 3600, sod % 3600 / 60, sod % 60, off⟩
+
 end Ahbicht
